@@ -44,6 +44,7 @@ def check(prog, rep):
     rep.section(_bounds, prog, rep, {fi.module.name for fi, _c in mins})
     rep.section(_x0, prog, rep)
     rep.section(_auto, prog, rep)
+    rep.section(_every_constraint, prog, rep)
     from .c10 import late_binding_sites
     bad, total = late_binding_sites(prog)
     bad = [b for b in bad if b[0].module.name.startswith("optyx.solvers")]
@@ -670,6 +671,65 @@ def _auto(prog, rep):
             else:
                 ok = lit in SCIPY_BOUNDS_METHODS or lit in SCIPY_CONSTRAINT_METHODS
                 rep.ob("R09.5", f"{fi.name}->{lit}", ok, f"unconstrained problems can get {lit!r}, which honours bounds" if ok else f"unconstrained problems get {lit!r}, which ignores variable bounds", loc=f"{fi.module.rel}:{rv.lineno}", detail=f"unconstrained:{lit}", robust=True)
+
+
+def _every_constraint(prog, rep):
+    """The record list handed to SciPy has one record per constraint of the problem: the loop that builds it ranges over
+    the whole constraint list and leaves a constraint out only when it has no expression.  (What each record computes is
+    R09.1 / C10.)"""
+    from .common import cache_entry_stores
+    from ..astutil import dominating_guards
+    for f2, v, asg in cache_entry_stores(prog, "scipy_constraints", lambda m: m.name.startswith("optyx.solvers")):
+        if not isinstance(v, ast.Name):
+            continue
+        L = v.id
+        loops = [lp for lp in walk_local(f2.node, include_self=False) if isinstance(lp, ast.For)
+                 and any(isinstance(c, ast.Call) and isinstance(c.func, ast.Attribute) and c.func.attr in ("append", "extend") and isinstance(c.func.value, ast.Name) and c.func.value.id == L for c in ast.walk(lp))]
+        for lp in loops:
+            it = lp.iter
+            whole = isinstance(it, ast.Attribute) and it.attr in ("constraints", "_constraints")
+            if not whole and isinstance(it, ast.Name) and len(asg.get(it.id, [])) == 1 and isinstance(asg[it.id][0], ast.Attribute) and asg[it.id][0].attr in ("constraints", "_constraints"):
+                whole = True
+            construct = f"{f2.qual.split(':')[1]}:constraint-loop"
+            if not whole:
+                if isinstance(it, ast.Subscript) and isinstance(it.slice, ast.Slice) and isinstance(it.value, ast.Attribute) and it.value.attr in ("constraints", "_constraints"):
+                    rep.ob("R09.1", construct, False, f"the loop building SciPy's constraint records ranges over `{src(it)}`, a slice of the problem's constraints: the others are never handed to the solver", loc=f"{f2.module.rel}:{lp.lineno}", detail="every-constraint", robust=True)
+                else:
+                    rep.undecided(f"{construct}: the loop ranges over `{src(it)[:40]}`; whether that is the whole constraint list is not followed")
+                continue
+            skips = [x for x in ast.walk(lp) if isinstance(x, (ast.Continue, ast.Break)) and not any(isinstance(p_, (ast.For, ast.While)) and p_ is not lp for p_ in _ancestors(x, lp))]
+            bad = None
+            unsure = None
+            for x in skips:
+                for t, pol in dominating_guards(x):
+                    if not any(t is y for y in ast.walk(lp)):
+                        continue
+                    txt = src(t)
+                    if isinstance(t, ast.Compare) and len(t.ops) == 1 and isinstance(t.ops[0], (ast.Is, ast.IsNot)) and isinstance(t.comparators[0], ast.Constant) and t.comparators[0].value is None:
+                        continue            # no expression: nothing to hand over
+                    if isinstance(t, ast.Compare) and isinstance(t.ops[0], (ast.In, ast.NotIn)) and not isinstance(t.comparators[0], (ast.Tuple, ast.List, ast.Set, ast.Constant)):
+                        bad = bad or (x, t)     # membership in a collection built on the way: "already seen" filters
+                    elif any(isinstance(y, ast.Call) and (dotted(y.func) or "") not in ("isinstance",) for y in ast.walk(t)):
+                        unsure = unsure or (x, t)
+                    else:
+                        unsure = unsure or (x, t)
+            if bad:
+                x, t = bad
+                rep.ob("R09.1", construct, False,
+                       f"a constraint is left out of SciPy's record list when `{src(t)[:60]}` holds (line {x.lineno}): the solver is then given a different feasible set than the problem states "
+                       f"(constraints that look alike under that test need not be the same constraint)",
+                       loc=f"{f2.module.rel}:{x.lineno}", detail="every-constraint", robust=True)
+            elif unsure:
+                rep.undecided(f"{construct}: a constraint is skipped when `{src(unsure[1])[:60]}` holds (line {unsure[0].lineno}); whether that can leave out a real constraint is not decided")
+            else:
+                rep.ob("R09.1", construct, True, "one record per constraint: the loop ranges over the problem's whole constraint list and skips only constraints without an expression", loc=f"{f2.module.rel}:{lp.lineno}", detail="every-constraint", robust=True)
+
+
+def _ancestors(x, stop):
+    p_ = getattr(x, "_parent", None)
+    while p_ is not None and p_ is not stop:
+        yield p_
+        p_ = getattr(p_, "_parent", None)
 
 
 def _site_key(n):
